@@ -34,7 +34,9 @@ ASSUMPTIONS = [
     "The structural oracle reads the generated text; the simulator's race "
     "detector (two iterations of one parallel loop incrementing one DoF on "
     "the 1-D chain mesh) backs it semantically.",
-    "Inter-grid kernels, operators and field vectors are not generated."]
+    "Inter-grid kernels and field vectors are not generated; kernels with "
+    "LMA operator arguments are generated for the structural oracle only "
+    "(the simulator does not execute operators)."]
 
 TRANS = ["colour", "colour", "omp-parallel-loop", "omp-parallel-loop",
          "omp-loop", "omp-region", "acc-loop", "acc-parallel", "acc-kernels",
@@ -356,7 +358,7 @@ def run_one(seed, index, tier):
     rng_s = stream(seed, "scenario")
     rng_h = stream(seed, "history")
     rng_i = stream(seed, "inputs")
-    scn = lfricgen.gen_scenario(rng_s, c22.FEATURES)
+    scn = lfricgen.gen_scenario(rng_s, list(c22.FEATURES) + ["operator"])
     ops = gen_history(rng_h)
     setup = c22.gen_setup(rng_i, scn)
     dm = rng_h.random() < 0.6
